@@ -16,6 +16,7 @@ from . import common
 ID = "C08"
 RUNS = {"quick": 1500, "thorough": 100000}
 TIME = {"quick": 75, "thorough": 1500}
+WALL = 240.0
 HASHSEEDS = {"quick": [0, 1, 2, 31337], "thorough": [0, 1, 2, 3, 7, 1234, 31337, 4294967295]}
 RULES = ("STV", "STV", "IRV", "SequentialRCV", "Plurality", "SNTV", "Borda", "TopTwo", "Alaska", "DominatingSets", "CondoBorda",
          "GeneralRating", "Rating", "Limited", "Cumulative", "Approval", "BlocPlurality")
@@ -35,9 +36,29 @@ case_size = common.case_size
 TARGET_NAMES = ["Joan", "Y", "x10", "x1", "Jo", "alpha", "_m", "Beta", "zeta"]
 
 
+def generate_big_pairwise(rng):
+    """8 candidates, one bullet vote (7 candidates unranked) and a close head-to-head contest: the pairwise rules must not
+    depend on the listing order of the candidates the short ballot leaves unranked"""
+    names = list(G.NAME_FAMILIES["plain"][:8])
+    a, b = rng.sample(names, 2)
+    rest = [c for c in names if c not in (a, b)]
+    rng.shuffle(rest)
+    w = rng.randint(5, 12)
+    ballots = [
+        {"r": [[a], [b]] + [[c] for c in rest], "w": str(w)},
+        {"r": [[b], [a]] + [[c] for c in rest], "w": str(w + 1)},
+        {"r": [[rng.choice(rest)]], "w": str(rng.randint(3, 9))},
+    ]
+    rule = rng.choice(["DominatingSets", "CondoBorda"])
+    kw = {} if rule == "DominatingSets" else {"m": rng.randint(1, 3)}
+    rng.shuffle(names)
+    return {"rule": rule, "kw": kw, "profile": {"candidates": names, "ballots": ballots},
+            "shape": {"n": 8, "nb": 3, "law": "big-pairwise", "names": "plain"}, "only_variants": ["permute-candidates", "rename"]}
+
+
 def generate(run_seed, tier):
     rng = stream(run_seed, "gen")
-    case = G.gen_rule_case(rng, rules=RULES, max_c=6)
+    case = generate_big_pairwise(rng) if rng.random() < 0.004 else G.gen_rule_case(rng, rules=RULES, max_c=6)
     if "transfer" in case["kw"]:
         case["kw"]["transfer"] = "fractional"
     n = len(case["profile"]["candidates"])
@@ -230,6 +251,8 @@ def execute(case, trace=False):
         ("permute-candidates", v_cperm(jp, v["cperm"]), ident),
         ("composition", v_cperm(v_permute(v_split(ren, v["splits"]), v["perm"][::-1]), v["cperm"]), inv),
     ]
+    if case.get("only_variants"):
+        variants = [x for x in variants if x[0] in case["only_variants"]]
     compared = 0
     rounds = len(base_st) - 1 if base_st else 0
     flags = []
